@@ -234,7 +234,8 @@ func reachingDefRHS(fi *load.FuncInfo, info *types.Info, e ast.Expr, site ast.No
 		}
 		for _, lx := range as.Lhs {
 			if l, ok := lx.(*ast.Ident); ok && info.ObjectOf(l) == info.ObjectOf(id) {
-				if contains(enclosingBlock(fi.Decl.Body, as), site) {
+				// (a case clause is a block of its own: an assignment in one case does not reach another case)
+				if contains(enclosingScope(fi.Decl.Body, as), site) {
 					out = as.Rhs[0]
 				}
 			}
@@ -394,4 +395,23 @@ func assignedFromCallIn(block *ast.BlockStmt, info *types.Info, e ast.Expr) *ast
 		}
 	}
 	return out
+}
+
+// enclosingScope returns the innermost block, case clause or comm clause of body that contains n.
+func enclosingScope(body *ast.BlockStmt, n ast.Node) ast.Node {
+	var best ast.Node = body
+	ast.Inspect(body, func(x ast.Node) bool {
+		if x == nil {
+			return true
+		}
+		if !contains(x, n) {
+			return false
+		}
+		switch x.(type) {
+		case *ast.BlockStmt, *ast.CaseClause, *ast.CommClause:
+			best = x
+		}
+		return true
+	})
+	return best
 }
